@@ -698,6 +698,83 @@ class AppLines(Suite):
         return run_app_lines(case)
 
 
+# ------------------------------------------------------------------ (b4) error rendering
+
+ERR_FILES = tuple(os.path.join(boot.REPO, 'falcon', *p) for p in (('app_helpers.py',), ('errors.py',), ('http_error.py',), ('response.py',)))
+ERR_REQS = [('/nothing/a', 'e0', 'application/xml'), ('/nothing/b', 'e1', 'text/xml;q=0.9, application/json;q=0.1'), ('/items/notanint', 'e2', 'application/json'),
+            ('/nothing/c', 'e3', 'application/xml, */*;q=0.1')]
+
+
+def err_request(app, i):
+    path, tok, accept = ERR_REQS[i]
+    env = wsgi_driver.build_environ('GET', path, query='q=' + tok, headers=[('X-Token', tok), ('Accept', accept)])
+    r = wsgi_driver.call(app, env)
+    if r.error is not None:
+        return ('error', type(r.error).__name__, str(r.error)[:200])
+    return (r.status, sorted(r.headers), r.body)
+
+
+_ERR_SERIAL = {}
+_ERR_POINTS = {}
+
+
+def run_error_lines(case):
+    reqs = case['reqs']
+    for i in reqs:
+        if i not in _ERR_SERIAL:
+            a2 = build_sink_app()
+            sink_request(a2, 4)
+            _ERR_SERIAL[i] = ('ok', err_request(a2, i))
+    app = build_sink_app()
+    sink_request(app, 4)  # warm up
+    fns = [lambda i=i: err_request(app, i) for i in reqs]
+    sched = Scheduler(fns, case['plan'], trace_prefixes=ERR_FILES)
+    results = sched.run()
+    ctx = 'requests=%r plan=%r switches=%r' % ([ERR_REQS[i][:1] + ERR_REQS[i][2:] for i in reqs], case['plan'], sched.switch_log[:8])
+    for k, i in enumerate(reqs):
+        got, exp = results[k], _ERR_SERIAL[i]
+        if got[0] == 'exc':
+            raise Violation('request_failed', 'request %r raised %r; %s' % (ERR_REQS[i][0], got[1], ctx))
+        if got != exp:
+            raise Violation('response_differs', 'request %r got %r, alone it gets %r; %s' % (ERR_REQS[i][0], got[1], exp[1], ctx))
+    mid = any(w != 'end' for (_f, _t, _p, w) in sched.switch_log)
+    return Info(mid, ['threads:%d' % len(reqs)] + (['preempted_inside_error_rendering'] if mid else []))
+
+
+class ErrorLines(Suite):
+    """Two requests that both end in an HTTP error (404 / a refused converter) rendered as XML or JSON by the default error
+    serializer race on a warmed-up app: every line event inside app_helpers.py, errors.py, http_error.py and response.py
+    is a yield point; ALL single pre-emptions of the first request and a grid of double pre-emptions.  Each request must
+    get the error response it gets alone.  (Never thinned out in the environment matrix: error rendering is where the
+    process-wide warnings machinery and the serializer's lazily initialised tables are touched.)"""
+
+    name = 'error_lines'
+    exhaustive = True
+    budget = {'quick': 1, 'thorough': 1}
+    case_timeout = 120
+
+    def cases(self, tier):
+        if 'n' not in _ERR_POINTS:
+            app = build_sink_app()
+            sink_request(app, 4)
+            sched = Scheduler([lambda: err_request(app, 0)], [[0, 10 ** 6]], trace_prefixes=ERR_FILES)
+            sched.run()
+            _ERR_POINTS['n'] = sched.points[0]
+        n = _ERR_POINTS['n']
+        pairs = [(0, 1), (1, 0), (0, 3)] if tier == 'quick' else [(a, b) for a in range(4) for b in range(4) if a != b]
+        for a, b in pairs:
+            for k in range(0, n + 2):
+                yield {'reqs': [a, b], 'plan': [[0, k]], 'env_case': True}
+        step = max(1, n // (8 if tier == 'quick' else 30))
+        for k1 in range(0, n, step):
+            for k2 in range(1, n, step):
+                yield {'reqs': [0, 1], 'plan': [[0, k1], [1, k2]], 'env_case': True}
+
+    def run(self, case):
+        return run_error_lines(case)
+
+
+
 # ------------------------------------------------------------------ (b3) bounded caches at capacity
 
 
@@ -1069,5 +1146,5 @@ class AsgiRandom(Suite):
         return run_asgi_tasks(case)
 
 
-SUITES = [RaceSinglePreemption(), RaceDoublePreemption(), RacePublication(), RaceLateEntrant(), RaceCompileError(), FreshProcess(), RaceRandom(), SteadyEnum(), AppLines(), WarmCaches(), AsgiEnum(), AsgiRandom()]
+SUITES = [RaceSinglePreemption(), RaceDoublePreemption(), RacePublication(), RaceLateEntrant(), RaceCompileError(), FreshProcess(), RaceRandom(), SteadyEnum(), AppLines(), ErrorLines(), WarmCaches(), AsgiEnum(), AsgiRandom()]
 KNOWN = {}
